@@ -223,6 +223,16 @@ def streams(ctx):
             for val in vals:
                 s = b"".join(message(5, 2, (field, val) if i == nrep - 1 else None) for i in range(nrep))
                 out.append((f"repeat{nrep}-{field}={val}", s, None, False))
+    # boundary header values (smallest / largest ids, the SD and "magic cookie" ids, empty payload) between two
+    # ordinary messages: what a message says must not change how the stream is framed
+    for service, method in itertools.product((0, 0xFFFF), (0, 0x8000, 0x8100, 0xFFFF)):
+        for (client, session, mtype), plen in itertools.product(((0xDEAD, 0xBEEF, 0x01), (0xDEAD, 0xBEEF, 0x02), (0, 0, 0x00),
+                                                                 (0xFFFF, 0xFFFF, 0x80)), (0, 1)):
+            mid = refcodec.enc_someip(service, method, client, session, 1, mtype, 0, payload(plen, 9))
+            for where in ("middle", "last"):
+                parts = [message(1, 1), mid] + ([message(2, 0)] if where == "middle" else [])
+                out.append((f"boundary-{service:#x}-{method:#x}-{client:#x}-{mtype:#x}-{plen}-{where}", b"".join(parts), None,
+                            (len(out) % 2) == 1))
     # long streams: cut positions restricted to a window around every boundary plus a 509-byte grid
     win = 17 if ctx.thorough else 3
     longs = [(255, 256, 4095, 4096, 0, 1, 255, 17)] if not ctx.thorough else [
